@@ -438,6 +438,10 @@ def layouts(names=("a", "b")) -> list[list]:
     variants = ["absent", "plain", "super", "required", "super2"]
 
     def blk(name, var, inner=None):
+        if var == "empty":
+            return ["block", name, False, [] if inner is None else [inner], None]
+        if var == "blank":
+            return ["block", name, False, [["text", " \n"]], None]
         body: list = [["text", ""]]
         if var == "super":
             body.append(["super"])
@@ -463,17 +467,23 @@ def layouts(names=("a", "b")) -> list[list]:
         outs.append([blk(b, vb), ["text", ""], blk(a, va)])
         outs.append([["text", ""], blk(a, va, blk(b, vb)), ["text", ""]])
         outs.append([["text", ""], blk(b, vb, blk(a, va)), ["text", ""]])
+    # blocks whose default body is empty or whitespace-only, alone inside control flow or inside another block
+    for e in ("empty",):  # (a whitespace-only body meets the documented suppression of blank blocks: not generated)
+        outs.append([["if", "true", [blk(a, e)]], ["text", ""]])
+        outs.append([["for", 2, [blk(a, e)]]])
+        outs.append([blk(b, "empty", blk(a, e))])
+        outs.append([["if", "g1", [["for", 1, [blk(a, e)]]]], blk(b, e)])
     return outs
 
 
 def mark(templates: dict[str, dict[str, Any]]) -> None:
-    """Replace every text item by a unique marker naming its template."""
+    """Replace every empty text item by a unique marker naming its template (whitespace-only text stays as it is)."""
     for tname, t in templates.items():
         n = [0]
 
         def go(items):
             for it in items:
-                if it[0] == "text":
+                if it[0] == "text" and it[1] == "":
                     n[0] += 1
                     it[1] = f"<{tname}{n[0]}>"
                 elif it[0] == "block":
@@ -484,9 +494,11 @@ def mark(templates: dict[str, dict[str, Any]]) -> None:
         go(t["items"])
 
 
-def gen_items(rng, names: list[str], depth: int, in_block: bool, in_for: bool, used: set[str], dup_ok: bool) -> list:
+def gen_items(rng, names: list[str], depth: int, in_block: bool, in_for: bool, used: set[str], dup_ok: bool, direct: bool = False) -> list:
+    """direct: these items are the immediate body of a block, which may be empty (whitespace-only text is never generated: it
+    would invoke the documented suppression of blank blocks, which R-inherit does not model)."""
     items: list = []
-    for _ in range(rng.randint(1, 4)):
+    for _ in range(rng.randint(0 if direct else 1, 4)):
         r = rng.random()
         if r < 0.25:
             items.append(["text", ""])
@@ -506,7 +518,7 @@ def gen_items(rng, names: list[str], depth: int, in_block: bool, in_for: bool, u
             req = rng.random() < 0.12
             r2 = rng.random()
             endname = name if r2 < 0.3 else None
-            body = gen_items(rng, names, depth + 1, True, False, used, dup_ok)
+            body = gen_items(rng, names, depth + 1, True, False, used, dup_ok, direct=True)
             items.append(["block", name, req, body, endname])
         elif r < 0.90 and depth < 3:
             items.append(["for", rng.choice([0, 1, 2, 2, 3]), gen_items(rng, names, depth + 1, in_block, True, used, dup_ok)])
